@@ -25,7 +25,9 @@ RULE = (
     "(optionally with -f or -t); sheets must be exactly <asset>_<year> for years with window transactions plus one "
     "<year>_Summary per year; every IN, OUT and fee-bearing transfer of the year listed once with month, day, exchange (or "
     "the transfer label), type, amounts, yen values and fee derived from the input; opening-balance cells must reference "
-    "the closing-balance cells (located structurally) of the most recent earlier sheet of the same asset, or be 0. "
+    "the closing-balance cells (located structurally) of the most recent earlier sheet of the same asset, or be 0; a transfer fee and a FEE "
+    "row of the same instant, account and amount are two rows; size sweep: every number of transactions in one asset-year from 26 below "
+    "to 2 above the size of the template's calculation sheet (thorough: 1 .. size + 60). "
     "Non-trivial = input where some asset-year's predecessor sheet is not year-1 or a year has only disposals; distinct = "
     "hash of the case"
 )
@@ -35,8 +37,8 @@ ASSUMPTIONS = [
     "rp2_jp is not given -f together with -t (KF3 of C16)",
 ]
 SETTINGS: Dict[str, Dict[str, Any]] = {
-    "quick": {"cases": 96, "budget_s": 60, "minimums": {"asset_year_sheets": 300, "chain_links": 200, "chain_to_non_adjacent_year": 40, "nontrivial": 25, "reports_with_a_fee_row_equal_to_a_transfer_fee": 3}},
-    "thorough": {"cases": 2500, "budget_s": 420, "minimums": {"asset_year_sheets": 4000, "chain_links": 2000, "chain_to_non_adjacent_year": 400, "nontrivial": 400, "reports_with_a_fee_row_equal_to_a_transfer_fee": 60}},
+    "quick": {"cases": 96, "budget_s": 60, "minimums": {"asset_year_sheets": 300, "chain_links": 200, "chain_to_non_adjacent_year": 40, "nontrivial": 25, "reports_with_a_fee_row_equal_to_a_transfer_fee": 3, "size_sweep_cases": 20}},
+    "thorough": {"cases": 2500, "budget_s": 420, "minimums": {"asset_year_sheets": 4000, "chain_links": 2000, "chain_to_non_adjacent_year": 400, "nontrivial": 400, "reports_with_a_fee_row_equal_to_a_transfer_fee": 60, "size_sweep_cases": 100}},
 }
 
 
@@ -156,8 +158,40 @@ def _one(ctx: Any, case: Dict[str, Any], name: str) -> None:
         ws.cleanup()
 
 
+def sweep_sizes(tier: str) -> List[int]:
+    """Numbers of transactions in one asset-year around the number of rows the template's calculation sheet comes with."""
+    import glob
+    import os
+
+    import ezodf
+
+    from rpv.common import rp2_src
+
+    rows = set()
+    for path in glob.glob(os.path.join(rp2_src(), "rp2", "plugin", "report", "data", "jp", "template_tax_report_jp_*.ods")):
+        for sheet in ezodf.opendoc(path).sheets:
+            if sheet.name == "__Asset":
+                rows.add(sheet.nrows())
+    top = max(rows or {118})
+    return list(range(top - 26, top + 3)) if tier == "quick" else list(range(1, top + 60, 1))
+
+
 def run_shard(ctx: Any) -> None:
     settings = SETTINGS[ctx.tier]
+    from rpv.checks.c14 import many_rows_history
+
+    sizes = sweep_sizes(ctx.tier)
+    for k in range(ctx.shard, len(sizes), ctx.nshards):
+        if ctx.time_left() < 8:
+            break
+        n = sizes[k]
+        srng = ctx.rng("size", n)
+        kind = "sales" if k % 2 == 0 else "interest"
+        hists = {"AAA": many_rows_history(srng, "AAA", n, kind)}
+        if k % 3 == 0:
+            hists["BBB"] = many_rows_history(srng, "BBB", srng.randint(1, 5), "sales")
+        ctx.count("size_sweep_cases")
+        _one(ctx, {"hists": hists, "language": srng.choice(("en", "kl")), "from": None, "to": None}, f"c20-size-{n}")
     share = ctx.share(settings["cases"])
     for i in range(share):
         if ctx.expired():
